@@ -356,9 +356,9 @@ def propagation(res, shard, of):
                 continue
             field = f.name
             # fresh tree
-            for prior in [None] + [d for d in declaring(MPDrawParams(), path, field)]:
+            for prior, how in [(None, "attr"), (None, "item")] + [(d, "attr") for d in declaring(MPDrawParams(), path, field)]:
                 root = MPDrawParams()
-                case = {"k": "propagation", "group": list(path), "field": field, "prior": None if prior is None else list(prior)}
+                case = {"k": "propagation", "group": list(path), "field": field, "prior": None if prior is None else list(prior), "assignment": how}
                 res.evals += 1; res.transitions += 1; res.nontrivial += 1
                 try:
                     old = getattr(get_group(root, path), field)
@@ -370,7 +370,10 @@ def propagation(res, shard, of):
                     else:
                         target = new
                     before = tree_values(root)
-                    setattr(get_group(root, path), field, target)
+                    if how == "item":
+                        get_group(root, path)[field] = target        # params["time_begin"] = 5 is the documented alternative to params.time_begin = 5
+                    else:
+                        setattr(get_group(root, path), field, target)
                     after = tree_values(root)
                 except Exception as e:
                     res.violation(f"C19|propagation|raises:{type(e).__name__}", f"{case}: {e!r}", case)
@@ -380,7 +383,7 @@ def propagation(res, shard, of):
                     if fl == field and (p == tuple(path) or p in below):
                         if v != target:
                             depth = len(p) - len(path)
-                            res.violation(f"C19|propagation|{'fresh' if prior is None else 'after-nested-assignment'}|not-propagated:depth={depth}",
+                            res.violation(f"C19|propagation|{('fresh' if how == 'attr' else 'fresh:item-assignment') if prior is None else 'after-nested-assignment'}|not-propagated:depth={depth}",
                                           f"{case}: {'.'.join(p) or '<root>'}.{field} is {v!r}, expected {target!r}", case)
                     elif before[(p, fl)] != v:
                         res.violation(f"C19|propagation|unrelated-parameter-changed", f"{case}: {'.'.join(p)}.{fl} changed from {before[(p, fl)]!r} to {v!r}", case)
